@@ -54,7 +54,7 @@ func newParserFacts(c *Ctx) *parserFacts {
 			for _, b := range f.Blocks {
 				for _, in := range b.Instrs {
 					if ci, ok := in.(ssa.CallInstruction); ok {
-						if callee := ci.Common().StaticCallee(); callee != nil && callee.Parent() == nil && len(callee.Blocks) > 0 && callee.Pkg != nil && callee.Pkg.Pkg.Path() == pkgConfig {
+						if callee := ci.Common().StaticCallee(); callee != nil && callee.Parent() == nil && len(callee.Blocks) > 0 && funcPkgPath(callee) == pkgConfig { // (an instantiated generic helper has no package of its own)
 							grow(callee)
 						}
 					}
@@ -1056,4 +1056,22 @@ func reachesAvoiding(from *ssa.BasicBlock, targets []*ssa.BasicBlock, cutFrom, c
 		return false
 	}
 	return rec(from)
+}
+
+// funcPkgPath: the import path of the package a function was written in (for an instantiation: that of the generic function).
+func funcPkgPath(fn *ssa.Function) string {
+	f := fn
+	for f.Parent() != nil {
+		f = f.Parent()
+	}
+	if o := f.Origin(); o != nil {
+		f = o
+	}
+	if f.Pkg != nil && f.Pkg.Pkg != nil {
+		return f.Pkg.Pkg.Path()
+	}
+	if obj := f.Object(); obj != nil && obj.Pkg() != nil {
+		return obj.Pkg().Path()
+	}
+	return ""
 }
